@@ -26,10 +26,8 @@ def jobs_for(tier):
     return jobs
 
 
-def confirm(rep, r, b):
-    """rebuild the object natively from the model: encode by the specification's layout, decode + re-encode natively"""
-    what, N = r['what'], r['N']
-    m = b.get('model') or {}
+def encode_from_model(what, N, m):
+    """the specification-layout encoding of the object described by a solver model"""
     if what == 'PublicKey':
         h = [m.get('h%d' % i, 0) for i in range(N)]
         enc = spec.pk_bytes(h, N)
@@ -43,6 +41,32 @@ def confirm(rep, r, b):
             for i in range(N):
                 bits += format(m.get('%s%d' % (nm, i), 0) & ((1 << ww) - 1), '0%db' % ww)
         enc = bytes([0x50 + N.bit_length() - 1]) + int(bits, 2).to_bytes(len(bits) // 8, 'big')
+    return enc
+
+
+def confirm(rep, r, b):
+    """rebuild the object natively from the model: encode by the specification's layout, decode + re-encode natively"""
+    what, N = r['what'], r['N']
+    enc = encode_from_model(what, N, b.get('model') or {})
+    encs = [enc]
+    if what == 'SecretKey':
+        # the recomputed G depends on (f, g, F) through g*F/f; a handful of representable keys with a large / awkward quotient
+        w = 6 if N == 512 else 5
+        lim = (1 << (w - 1)) - 1
+        for f0, g0, F0 in (([1], [2], [100]), ([1], [lim, -lim], [127, -127, 127]), ([-1, 1], [lim] * 8, [-127] * 8), ([3], [-2, 5], [90, -111])):
+            bits = ''
+            for vec, ww in ((f0, w), (g0, w), (F0, 8)):
+                v = list(vec) + [0] * (N - len(vec))
+                bits += ''.join(format(x & ((1 << ww) - 1), '0%db' % ww) for x in v)
+            encs.append(bytes([0x50 + N.bit_length() - 1]) + int(bits, 2).to_bytes(len(bits) // 8, 'big'))
+    for enc in encs:
+        if try_one(rep, r, b, what, N, enc):
+            return True
+    rep.note_inconclusive('round-trip finding did not reproduce natively: %s %s' % (r['tag'], b['kind']))
+    return False
+
+
+def try_one(rep, r, b, what, N, enc):
     req = ['parse', what, N, enc.hex()]
     dev, rel = replay.both(req)
     rep.replayed += 1
@@ -51,7 +75,6 @@ def confirm(rep, r, b):
         rep.violation('%s:roundtrip' % what, '%s::<%d>: the specification-layout encoding of a representable object does not survive from_bytes/to_bytes natively: %s (%s)'
                       % (what, N, dev[:60], b['kind']), {'replay_request': ['parse', what, N, enc.hex()[:120] + '...'], 'dev': dev[:100], 'release': rel[:100], 'kind': b['kind']})
         return True
-    rep.note_inconclusive('round-trip finding did not reproduce natively: %s %s' % (r['tag'], b['kind']))
     return False
 
 
@@ -78,7 +101,14 @@ def check(tier):
         if r['ok'] == 0 and not r['bad'] and not r['panics']:
             rep.note_inconclusive('vacuity: %s never reaches a decoded object' % r['tag'])
         for s in r['samples'][:1]:
-            rep.sample({'scenario': r['tag'], 'sample': s})
+            rep.sample({'scenario': r['tag'], 'sample': {k: v for k, v in s.items() if k != 'model'}})
+            # translator validation: the sample object, encoded by the specification's layout, must round-trip through the real code
+            enc = encode_from_model(r['what'], r['N'], s.get('model') or {})
+            got = replay.call1(['parse', r['what'], r['N'], enc.hex()])
+            if got == 'Ok ' + enc.hex():
+                rep.replayed += 1
+            else:
+                rep.note_inconclusive('translator validation failed (%s): the real code answers %s' % (r['tag'], got[:60]))
         for b in r['bad'] + [{'kind': 'panic: ' + p['msg'], 'model': p['model']} for p in r['panics']]:
             if b.get('deferred'):
                 rep.note_inconclusive('%s: %s' % (r['tag'], b['kind'])); continue
